@@ -61,6 +61,34 @@ class ShapeEval:
             return t[1]
         raise Unrecognised("expected a string literal, got %s" % path_str(t)[:100])
 
+    def str_list(self, b, t):
+        """contents of a `&[&str]` / `&[(&str, &str)]` constant (flattened, memory order)"""
+        t0 = unref(t)
+        while t0[0] == "cast":
+            t0 = unref(t0[2])
+        if t0[0] == "strs":
+            return list(t0[1])
+        if t0[0] == "agg" and t0[1] == "array":
+            out = []
+            for e in t0[3]:
+                e = unref(e)
+                if e[0] == "str":
+                    out.append(e[1])
+                elif e[0] == "agg" and e[1] == "tuple":
+                    out += [self.const_str(x) for x in e[3]]
+                else:
+                    raise Unrecognised("non-constant string table element %s" % path_str(e)[:60])
+            return out
+        if t0[0] in ("const", "zst"):
+            return []
+        raise Unrecognised("expected a constant string slice, got %s" % path_str(t0)[:100])
+
+    def docs_value(self, b, t):
+        try:
+            return self.str_list(b, t)
+        except Unrecognised:
+            return path_str(t)[:200]
+
     def const_int(self, t):
         t0 = mir.uncast(unref(t))
         if t0[0] == "int":
@@ -154,6 +182,22 @@ class ShapeEval:
             return self.const_str(args[1]).split("::") + [self.const_str(args[0])]
         if name == "scale_info::ty::path::Path::voldemort":
             return []
+        if name == "scale_info::ty::path::Path::new_with_replace":
+            ident = self.const_str(args[0])
+            segs = self.const_str(args[1]).split("::") + [ident]
+            pairs = self.str_list(b, args[2])
+            if len(pairs) % 2:
+                raise Unrecognised("odd number of strings in the replace table")
+            table = list(zip(pairs[0::2], pairs[1::2]))
+            out = []
+            for sg in segs:
+                rep = sg
+                for a, r in table:
+                    if a == sg:
+                        rep = r
+                        break
+                out.append(rep)
+            return out
         # --- type builder
         if name == "scale_info::ty::Type::builder":
             return {"k": "tb", "path": None, "params": [], "docs": None}
@@ -167,7 +211,7 @@ class ShapeEval:
             return tb
         if name in ("scale_info::build::TypeBuilder::docs", "scale_info::build::TypeBuilder::docs_always"):
             tb = dict(E(args[0]))
-            tb["docs"] = {"via": ln, "value": path_str(args[1])[:200]}
+            tb["docs"] = {"via": ln, "value": self.docs_value(b, args[1])}
             return tb
         if name == "scale_info::build::TypeBuilder::composite":
             tb = E(args[0])
@@ -206,7 +250,7 @@ class ShapeEval:
             return f
         if name in ("scale_info::build::FieldBuilder::docs", "scale_info::build::FieldBuilder::docs_always"):
             f = dict(E(args[0]))
-            f["docs"] = {"via": ln, "value": path_str(args[1])[:200]}
+            f["docs"] = {"via": ln, "value": self.docs_value(b, args[1])}
             return f
         # --- variants
         if name == "scale_info::build::Variants::new":
@@ -236,7 +280,7 @@ class ShapeEval:
             return v
         if name in ("scale_info::build::VariantBuilder::docs", "scale_info::build::VariantBuilder::docs_always"):
             v = dict(E(args[0]))
-            v["docs"] = {"via": ln, "value": path_str(args[1])[:200]}
+            v["docs"] = {"via": ln, "value": self.docs_value(b, args[1])}
             return v
         raise Unrecognised("call to %s is outside the builder vocabulary" % name)
 
